@@ -51,7 +51,7 @@ def fires : Nat → Tk → Bool → Bool
   | 0, t, _ => (commaOps t).isSome | 1, t, _ => (asgOps t).isSome | 2, t, _ => t = .p .quest
   | 3, t, _ => (lorOps t).isSome | 4, t, _ => (landOps t).isSome | 5, t, _ => (borOps t).isSome
   | 6, t, _ => (bxorOps t).isSome | 7, t, _ => (bandOps t).isSome | 8, t, _ => (eqOps t).isSome
-  | 9, t, _ => isRelTk t | 10, t, _ => (shiftOps t).isSome | 11, t, _ => (addOps t).isSome | 12, t, _ => (mulOps t).isSome
+  | 9, t, _ => (relOps true t).isSome | 10, t, _ => (shiftOps t).isSome | 11, t, _ => (addOps t).isSome | 12, t, _ => (mulOps t).isSome
   | 13, _, _ => false
   | 14, t, nl => (t = .p .inc || t = .p .dec) && !nl
   | 15, t, _ => t = .p .dot || t = .p .lbrack || t = .p .lparen
@@ -89,19 +89,19 @@ theorem stop_mono {a b : Nat} {ts} (h : a ≤ b) (s : stop a ts) : stop b ts := 
 /-- operator table of the loop levels -/
 def opsAt : Nat → Tk → Option BinOp
   | 0 => commaOps | 3 => lorOps | 4 => landOps | 5 => borOps | 6 => bxorOps | 7 => bandOps | 8 => eqOps
-  | 10 => shiftOps | 11 => addOps | 12 => mulOps | _ => fun _ => none
+  | 9 => relOps true | 10 => shiftOps | 11 => addOps | 12 => mulOps | _ => fun _ => none
 
-def isLoopLevel (k : Nat) : Bool := k = 0 || k = 3 || k = 4 || k = 5 || k = 6 || k = 7 || k = 8 || k = 10 || k = 11 || k = 12
+def isLoopLevel (k : Nat) : Bool := k = 0 || k = 3 || k = 4 || k = 5 || k = 6 || k = 7 || k = 8 || k = 9 || k = 10 || k = 11 || k = 12
 
 def nextLevel (k : Nat) : Nat := k + 1
 
 theorem parseAt_loop (k : Nat) (hk : isLoopLevel k = true) (n : Nat) (ts : List Tok) :
     parseAt k (n+1) ts = (parseAt (k+1) n ts).bind fun p => binLoop (opsAt k) (parseAt (k+1) n) n p.1 p.2 := by
   simp [isLoopLevel] at hk
-  rcases hk with (((((((((h|h)|h)|h)|h)|h)|h)|h)|h)|h) <;> subst h <;> simp only [parseAt, opsAt] <;>
+  rcases hk with ((((((((((h|h)|h)|h)|h)|h)|h)|h)|h)|h)|h) <;> subst h <;> simp only [parseAt, opsAt] <;>
     first
       | rw [parseExpression] | rw [parseLor] | rw [parseLand] | rw [parseBor] | rw [parseBxor] | rw [parseBand]
-      | rw [parseEq] | rw [parseShift] | rw [parseAdd] | rw [parseMul]
+      | rw [parseEq] | rw [parseRel] | rw [parseShift] | rw [parseAdd] | rw [parseMul]
 
 
 def notPrefix (t : Tk) : Prop := unaryOps t = none ∧ t ≠ .p .inc ∧ t ≠ .p .dec
@@ -118,7 +118,7 @@ theorem descend_loop (k : Nat) (hk : isLoopLevel k = true) {ts : List Tok} {e : 
   obtain ⟨m', rfl⟩ : ∃ m', m = m'+1 := ⟨m-1, by omega⟩
   have : opsAt k (hd rest) = none := by
     simp [isLoopLevel] at hk
-    rcases hk with (((((((((h|h)|h)|h)|h)|h)|h)|h)|h)|h) <;> subst h <;> simpa [fires, opsAt] using hs
+    rcases hk with ((((((((((h|h)|h)|h)|h)|h)|h)|h)|h)|h)|h) <;> subst h <;> simpa [fires, opsAt] using hs
   simp [binLoop, this]
 
 theorem descend_assign {ts : List Tok} {e : E} {rest : List Tok}
@@ -146,20 +146,6 @@ theorem descend_cond {ts : List Tok} {e : E} {rest : List Tok}
   rw [parseCond, h']
   have : ¬ hd rest = .p .quest := by simpa [fires] using hs
   simp [this]
-
-theorem descend_rel {ts : List Tok} {e : E} {rest : List Tok}
-    (h : Ev (fun n => parseAt 10 n ts) (e, rest)) (hs : fires 9 (hd rest) (hdNl rest) = false) :
-    Ev (fun n => parseAt 9 n ts) (e, rest) := by
-  obtain ⟨n0, h⟩ := h
-  refine ⟨n0 + 1, fun n hn => ?_⟩
-  obtain ⟨m, rfl⟩ : ∃ m, n = m+1 := ⟨n-1, by omega⟩
-  have h' := h m (by omega)
-  dsimp only at h' ⊢
-  simp only [parseAt] at h' ⊢
-  rw [parseRel, h']
-  simp only [fires] at hs
-  simp only [Option.bind_some]
-  split <;> simp_all [isRelTk]
 
 theorem descend_unary {ts : List Tok} {e : E} {rest : List Tok}
     (h : Ev (fun n => parseAt 14 n ts) (e, rest)) (hf : notPrefix (hd ts)) :
@@ -204,7 +190,7 @@ theorem descend1 (j : Nat) (hj : j ≤ 14) {ts : List Tok} {e : E} {rest : List 
   | 6, _ => exact descend_loop 6 rfl h hs
   | 7, _ => exact descend_loop 7 rfl h hs
   | 8, _ => exact descend_loop 8 rfl h hs
-  | 9, _ => exact descend_rel h hs
+  | 9, _ => exact descend_loop 9 rfl h hs
   | 10, _ => exact descend_loop 10 rfl h hs
   | 11, _ => exact descend_loop 11 rfl h hs
   | 12, _ => exact descend_loop 12 rfl h hs
@@ -267,7 +253,7 @@ theorem opsAt_binTok (o : BinOp) (h : isLoopLevel (binPrec o) = true) : opsAt (b
 
 theorem opsAt_none {k : Nat} (hk : isLoopLevel k = true) {t : Tk} {nl : Bool} (h : fires k t nl = false) : opsAt k t = none := by
   simp [isLoopLevel] at hk
-  rcases hk with (((((((((h'|h')|h')|h')|h')|h')|h')|h')|h')|h') <;> subst h' <;> simpa [fires, opsAt] using h
+  rcases hk with ((((((((((h'|h')|h')|h')|h')|h')|h')|h')|h')|h')|h') <;> subst h' <;> simpa [fires, opsAt] using h
 
 theorem memberLoop_stop (n : Nat) (c : Bool) (e : E) (ts : List Tok) (h : fires 15 (hd ts) (hdNl ts) = false) :
     memberLoop (n+1) c e ts = some (e, ts) := by
@@ -484,25 +470,6 @@ theorem first_pr {lvl : Nat} (h15 : lvl ≤ 15) (h14 : 14 ≤ lvl) {e : E} (hw :
   · rw [pr_bare h15 hp]; exact first_ok e hw he (by omega) rest
   · rw [pr_paren h15 (by omega)]; exact notPrefix_lparen _
 
-theorem own_rel {o : BinOp} {l r : E} (ho : isRel o = true) (hl : prec l ≠ 9) (rtl : RT l) (rtr : RT r) : OWN (.bin o l r) := by
-  intro rest hs
-  have hb : binPrec o = 9 := by cases o <;> simp_all [isRel, binPrec]
-  have hown : ownStop (.bin o l r) = 9 := by unfold ownStop; rw [prec_bin, hb]; simp
-  rw [hown] at hs
-  rw [prec_bin, bare_bin, hb, List.append_assoc, List.cons_append, pr_succ (by omega) hl]
-  have hs1 : stop 10 (tk (binTok o) :: (pr 10 true r ++ rest)) := by have := stop_binTok o (pr 10 true r ++ rest); rwa [hb] at this
-  obtain ⟨n1, h1⟩ := rtl 10 (by omega) (by omega) _ hs1
-  obtain ⟨n2, h2⟩ := descend1 9 (by omega) (rtr 10 (by omega) (by omega) rest (stop_mono (by omega) hs)) (stop_fires hs 9 (Nat.le_refl _)) (by omega)
-  refine ⟨max n1 n2 + 1, fun n hn => ?_⟩
-  obtain ⟨m, rfl⟩ : ∃ m, n = m+1 := ⟨n-1, by omega⟩
-  have h1' := h1 m (by omega)
-  have h2' := h2 m (by omega)
-  dsimp only at h1' h2' ⊢
-  rw [parseAt_10] at h1'
-  rw [parseAt_9] at h2' ⊢
-  rw [parseRel, h1']
-  cases o <;> simp [isRel] at ho <;> simp [binTok, tk, hd, h2']
-
 theorem own_un {o : UnOp} {e : E} (rte : RT e) (ht : (o = .preinc ∨ o = .predec) → simpleTarget e = true) : OWN (.un o e) := by
   intro rest hs
   have hown : ownStop (.un o e) = 13 := by simp [ownStop, prec]
@@ -596,123 +563,12 @@ theorem own_leaf {e : E} {t : Tk} (hb : bare e true = [{ k := t }]) (hp : prec e
   simp only [List.singleton_append, hprim, Option.bind_some]
   exact memberLoop_stop _ _ _ _ (stop_fires hs 15 (Nat.le_refl _))
 
-/-- no member access, call or `new` anywhere (the fragment of the first round-trip theorem) -/
-def noLHS : E → Bool
-  | .bin _ l r => noLHS l && noLHS r
-  | .un _ e => noLHS e
-  | .post _ e => noLHS e
-  | .cond c a b => noLHS c && noLHS a && noLHS b
-  | .asg _ l r => noLHS l && noLHS r
-  | .dot _ _ | .idx _ _ | .call _ _ | .new_ _ _ | .anil | .acons _ _ | .noargs => false
-  | _ => true
-
 theorem lc_all {e : E} (rt : RT e) (hne : ∀ o l r, e ≠ .bin o l r) : ∀ k, isLoopLevel k = true → LC k e := by
   intro k hk
   apply lc_of_rt rt hk
   intro hp
   cases e <;> simp [prec] at hp <;> (try (subst hp; simp [isLoopLevel] at hk))
   exact hne _ _ _ rfl
-
-theorem main1 : ∀ e : E, wf e = true → relChain e = false → noLHS e = true →
-    RT e ∧ ∀ k, isLoopLevel k = true → LC k e := by
-  intro e
-  induction e with
-  | id s =>
-    intro _ _ _
-    have rt : RT (.id s) := rt_of_own (own_leaf (t := .id s) rfl rfl (fun n r => by rw [parsePrimary]) (by simp))
-      (fun _ rest => ⟨rfl, by simp [bare, hd], by simp [bare, hd]⟩)
-    exact ⟨rt, lc_all rt (by simp)⟩
-  | num s =>
-    intro _ _ _
-    have rt : RT (.num s) := rt_of_own (own_leaf (t := .num s) rfl rfl (fun n r => by rw [parsePrimary]) (by simp))
-      (fun _ rest => ⟨rfl, by simp [bare, hd], by simp [bare, hd]⟩)
-    exact ⟨rt, lc_all rt (by simp)⟩
-  | str s =>
-    intro _ _ _
-    have rt : RT (.str s) := rt_of_own (own_leaf (t := .str s) rfl rfl (fun n r => by rw [parsePrimary]) (by simp))
-      (fun _ rest => ⟨rfl, by simp [bare, hd], by simp [bare, hd]⟩)
-    exact ⟨rt, lc_all rt (by simp)⟩
-  | bool s =>
-    intro _ _ _
-    have rt : RT (.bool s) := rt_of_own (own_leaf (t := .bool s) rfl rfl (fun n r => by rw [parsePrimary]) (by simp))
-      (fun _ rest => ⟨rfl, by simp [bare, hd], by simp [bare, hd]⟩)
-    exact ⟨rt, lc_all rt (by simp)⟩
-  | null =>
-    intro _ _ _
-    have rt : RT .null := rt_of_own (own_leaf (t := .null) rfl rfl (fun n r => by rw [parsePrimary]) (by simp))
-      (fun _ rest => ⟨rfl, by simp [bare, hd], by simp [bare, hd]⟩)
-    exact ⟨rt, lc_all rt (by simp)⟩
-  | this_ =>
-    intro _ _ _
-    have rt : RT .this_ := rt_of_own (own_leaf (t := .p .kThis) rfl rfl (fun n r => by rw [parsePrimary]) (by simp))
-      (fun _ rest => ⟨rfl, by simp [bare, hd, tk], by simp [bare, hd, tk]⟩)
-    exact ⟨rt, lc_all rt (by simp)⟩
-  | bin o l r ihl ihr =>
-    intro hw hrc hn
-    simp only [wf, Bool.and_eq_true] at hw
-    simp only [relChain, Bool.or_eq_false_iff, Bool.and_eq_false_iff] at hrc
-    simp only [noLHS, Bool.and_eq_true] at hn
-    obtain ⟨rtl, lcl⟩ := ihl hw.1.2 hrc.1.2 hn.1
-    obtain ⟨rtr, _⟩ := ihr hw.2 hrc.2 hn.2
-    have h14 : ¬ 14 ≤ prec (.bin o l r) := by rw [prec_bin]; cases o <;> simp [binPrec]
-    by_cases hk : isLoopLevel (binPrec o) = true
-    · have rt : RT (.bin o l r) := rt_of_own (own_bin_loop hk (lcl _ hk) rtr) (fun h => absurd h h14)
-      refine ⟨rt, fun k hk' => ?_⟩
-      by_cases hkk : k = binPrec o
-      · subst hkk; exact lc_bin hk (lcl _ hk) rtr
-      · exact lc_of_rt rt hk' (by rw [prec_bin]; omega)
-    · have ho : isRel o = true := by cases o <;> simp_all [isLoopLevel, binPrec, isRel]
-      have hl9 : prec l ≠ 9 := by
-        rcases hrc.1.1 with h | h
-        · simp [ho] at h
-        · simpa using h
-      have rt : RT (.bin o l r) := rt_of_own (own_rel ho hl9 rtl rtr) (fun h => absurd h h14)
-      refine ⟨rt, fun k hk' => lc_of_rt rt hk' ?_⟩
-      rw [prec_bin]; intro hkk; rw [← hkk] at hk'; exact hk hk'
-  | un o e ih =>
-    intro hw hrc hn
-    simp only [wf, Bool.and_eq_true] at hw
-    simp only [relChain] at hrc
-    simp only [noLHS] at hn
-    obtain ⟨rte, _⟩ := ih hw.1.2 hrc hn
-    have rt : RT (.un o e) := rt_of_own (own_un rte (fun h => by simpa [h] using hw.2)) (fun h => by simp [prec] at h)
-    exact ⟨rt, lc_all rt (by simp)⟩
-  | post i e ih =>
-    intro hw hrc hn
-    have hw0 := hw
-    simp only [wf, Bool.and_eq_true] at hw
-    simp only [relChain] at hrc
-    simp only [noLHS] at hn
-    obtain ⟨rte, _⟩ := ih hw.1.2 hrc hn
-    have rt : RT (.post i e) := rt_of_own (own_post rte hw.2) (fun h rest => first_ok _ hw0 rfl h rest)
-    exact ⟨rt, lc_all rt (by simp)⟩
-  | cond c a b ihc iha ihb =>
-    intro hw hrc hn
-    simp only [wf, Bool.and_eq_true] at hw
-    simp only [relChain, Bool.or_eq_false_iff] at hrc
-    simp only [noLHS, Bool.and_eq_true] at hn
-    obtain ⟨rtc, _⟩ := ihc hw.1.1.2 hrc.1.1 hn.1.1
-    obtain ⟨rta, _⟩ := iha hw.1.2 hrc.1.2 hn.1.2
-    obtain ⟨rtb, _⟩ := ihb hw.2 hrc.2 hn.2
-    have rt : RT (.cond c a b) := rt_of_own (own_cond rtc rta rtb) (fun h => by simp [prec] at h)
-    exact ⟨rt, lc_all rt (by simp)⟩
-  | asg o l r ihl ihr =>
-    intro hw hrc hn
-    simp only [wf, Bool.and_eq_true] at hw
-    simp only [relChain, Bool.or_eq_false_iff] at hrc
-    simp only [noLHS, Bool.and_eq_true] at hn
-    obtain ⟨rtl, _⟩ := ihl hw.1.1.2 hrc.1 hn.1
-    obtain ⟨rtr, _⟩ := ihr hw.1.2 hrc.2 hn.2
-    have rt : RT (.asg o l r) := rt_of_own (own_asg rtl rtr hw.2 (fun rest => first_pr (by omega) (by omega) hw.1.1.2 hw.1.1.1.1 rest))
-      (fun h => by simp [prec] at h)
-    exact ⟨rt, lc_all rt (by simp)⟩
-  | dot e s _ => intro _ _ h; simp [noLHS] at h
-  | idx e i _ _ => intro _ _ h; simp [noLHS] at h
-  | call f a _ _ => intro _ _ h; simp [noLHS] at h
-  | new_ f a _ _ => intro _ _ h; simp [noLHS] at h
-  | anil => intro _ _ h; simp [noLHS] at h
-  | acons _ _ _ _ => intro _ _ h; simp [noLHS] at h
-  | noargs => intro _ _ h; simp [noLHS] at h
 
 /-! ### member access, calls, `new`, argument lists -/
 
@@ -1099,110 +955,94 @@ theorem ex_leaf {e : E} {t : Tk} (hb : bare e true = [{ k := t }]) (hp : prec e 
   have rt : RT e := rt_of_own (own_leaf hb hp hprim hnew) (fun _ rest => by rw [hb]; exact hnp)
   exact ex_mk rt (lc_all rt hne) (fun _ _ => mc_leaf hb (by simp [needParen, hc]) hprim hnew) (by simp [hc])
 
-theorem main2 : ∀ e : E, wf e = true → relChain e = false →
+theorem main2 : ∀ e : E, wf e = true →
     (isExprHead e = true → EX e) ∧ (isArgs e = true → ARGS e) := by
   intro e
   induction e with
   | id s =>
-    intro _ _; refine ⟨fun _ => ?_, fun h => by simp [isArgs] at h⟩
+    intro _; refine ⟨fun _ => ?_, fun h => by simp [isArgs] at h⟩
     exact ex_leaf (t := .id s) rfl rfl rfl (fun n r => by rw [parsePrimary]) (by simp) ⟨rfl, by simp, by simp⟩ (by simp)
   | num s =>
-    intro _ _; refine ⟨fun _ => ?_, fun h => by simp [isArgs] at h⟩
+    intro _; refine ⟨fun _ => ?_, fun h => by simp [isArgs] at h⟩
     exact ex_leaf (t := .num s) rfl rfl rfl (fun n r => by rw [parsePrimary]) (by simp) ⟨rfl, by simp, by simp⟩ (by simp)
   | str s =>
-    intro _ _; refine ⟨fun _ => ?_, fun h => by simp [isArgs] at h⟩
+    intro _; refine ⟨fun _ => ?_, fun h => by simp [isArgs] at h⟩
     exact ex_leaf (t := .str s) rfl rfl rfl (fun n r => by rw [parsePrimary]) (by simp) ⟨rfl, by simp, by simp⟩ (by simp)
   | bool s =>
-    intro _ _; refine ⟨fun _ => ?_, fun h => by simp [isArgs] at h⟩
+    intro _; refine ⟨fun _ => ?_, fun h => by simp [isArgs] at h⟩
     exact ex_leaf (t := .bool s) rfl rfl rfl (fun n r => by rw [parsePrimary]) (by simp) ⟨rfl, by simp, by simp⟩ (by simp)
   | null =>
-    intro _ _; refine ⟨fun _ => ?_, fun h => by simp [isArgs] at h⟩
+    intro _; refine ⟨fun _ => ?_, fun h => by simp [isArgs] at h⟩
     exact ex_leaf (t := .null) rfl rfl rfl (fun n r => by rw [parsePrimary]) (by simp) ⟨rfl, by simp, by simp⟩ (by simp)
   | this_ =>
-    intro _ _; refine ⟨fun _ => ?_, fun h => by simp [isArgs] at h⟩
+    intro _; refine ⟨fun _ => ?_, fun h => by simp [isArgs] at h⟩
     exact ex_leaf (t := .p .kThis) rfl rfl rfl (fun n r => by rw [parsePrimary]) (by simp) ⟨rfl, by simp, by simp⟩ (by simp)
   | bin o l r ihl ihr =>
-    intro hw hrc; refine ⟨fun _ => ?_, fun h => by simp [isArgs] at h⟩
+    intro hw; refine ⟨fun _ => ?_, fun h => by simp [isArgs] at h⟩
     simp only [wf, Bool.and_eq_true] at hw
-    simp only [relChain, Bool.or_eq_false_iff, Bool.and_eq_false_iff] at hrc
-    obtain ⟨rtl, lcl, _⟩ := (ihl hw.1.2 hrc.1.2).1 hw.1.1.1
-    obtain ⟨rtr, _⟩ := (ihr hw.2 hrc.2).1 hw.1.1.2
+    obtain ⟨rtl, lcl, _⟩ := (ihl hw.1.2).1 hw.1.1.1
+    obtain ⟨rtr, _⟩ := (ihr hw.2).1 hw.1.1.2
     have h14 : ¬ 14 ≤ prec (.bin o l r) := by rw [prec_bin]; cases o <;> simp [binPrec]
-    by_cases hk : isLoopLevel (binPrec o) = true
-    · have rt : RT (.bin o l r) := rt_of_own (own_bin_loop hk (lcl _ hk) rtr) (fun h => absurd h h14)
-      refine ex_X rt (fun k hk' => ?_) rfl
-      by_cases hkk : k = binPrec o
-      · subst hkk; exact lc_bin hk (lcl _ hk) rtr
-      · exact lc_of_rt rt hk' (by rw [prec_bin]; omega)
-    · have ho : isRel o = true := by cases o <;> simp_all [isLoopLevel, binPrec, isRel]
-      have hl9 : prec l ≠ 9 := by
-        rcases hrc.1.1 with h | h
-        · simp [ho] at h
-        · simpa using h
-      have rt : RT (.bin o l r) := rt_of_own (own_rel ho hl9 rtl rtr) (fun h => absurd h h14)
-      refine ex_X rt (fun k hk' => lc_of_rt rt hk' ?_) rfl
-      rw [prec_bin]; intro hkk; rw [← hkk] at hk'; exact hk hk'
+    have hk : isLoopLevel (binPrec o) = true := by cases o <;> rfl
+    have rt : RT (.bin o l r) := rt_of_own (own_bin_loop hk (lcl _ hk) rtr) (fun h => absurd h h14)
+    refine ex_X rt (fun k hk' => ?_) rfl
+    by_cases hkk : k = binPrec o
+    · subst hkk; exact lc_bin hk (lcl _ hk) rtr
+    · exact lc_of_rt rt hk' (by rw [prec_bin]; omega)
   | un o e ih =>
-    intro hw hrc; refine ⟨fun _ => ?_, fun h => by simp [isArgs] at h⟩
+    intro hw; refine ⟨fun _ => ?_, fun h => by simp [isArgs] at h⟩
     simp only [wf, Bool.and_eq_true] at hw
-    simp only [relChain] at hrc
-    obtain ⟨rte, _⟩ := (ih hw.1.2 hrc).1 hw.1.1
+    obtain ⟨rte, _⟩ := (ih hw.1.2).1 hw.1.1
     have rt : RT (.un o e) := rt_of_own (own_un rte (fun h => by simpa [h] using hw.2)) (fun h => by simp [prec] at h)
     exact ex_X rt (lc_all rt (by simp)) rfl
   | post i e ih =>
-    intro hw hrc; refine ⟨fun _ => ?_, fun h => by simp [isArgs] at h⟩
+    intro hw; refine ⟨fun _ => ?_, fun h => by simp [isArgs] at h⟩
     have hw0 := hw
     simp only [wf, Bool.and_eq_true] at hw
-    simp only [relChain] at hrc
-    obtain ⟨rte, _⟩ := (ih hw.1.2 hrc).1 hw.1.1
+    obtain ⟨rte, _⟩ := (ih hw.1.2).1 hw.1.1
     have rt : RT (.post i e) := rt_of_own (own_post rte hw.2) (fun h rest => first_ok _ hw0 rfl h rest)
     exact ex_X rt (lc_all rt (by simp)) rfl
   | cond c a b ihc iha ihb =>
-    intro hw hrc; refine ⟨fun _ => ?_, fun h => by simp [isArgs] at h⟩
+    intro hw; refine ⟨fun _ => ?_, fun h => by simp [isArgs] at h⟩
     simp only [wf, Bool.and_eq_true] at hw
-    simp only [relChain, Bool.or_eq_false_iff] at hrc
-    obtain ⟨rtc, _⟩ := (ihc hw.1.1.2 hrc.1.1).1 hw.1.1.1.1.1
-    obtain ⟨rta, _⟩ := (iha hw.1.2 hrc.1.2).1 hw.1.1.1.1.2
-    obtain ⟨rtb, _⟩ := (ihb hw.2 hrc.2).1 hw.1.1.1.2
+    obtain ⟨rtc, _⟩ := (ihc hw.1.1.2).1 hw.1.1.1.1.1
+    obtain ⟨rta, _⟩ := (iha hw.1.2).1 hw.1.1.1.1.2
+    obtain ⟨rtb, _⟩ := (ihb hw.2).1 hw.1.1.1.2
     have rt : RT (.cond c a b) := rt_of_own (own_cond rtc rta rtb) (fun h => by simp [prec] at h)
     exact ex_X rt (lc_all rt (by simp)) rfl
   | asg o l r ihl ihr =>
-    intro hw hrc; refine ⟨fun _ => ?_, fun h => by simp [isArgs] at h⟩
+    intro hw; refine ⟨fun _ => ?_, fun h => by simp [isArgs] at h⟩
     simp only [wf, Bool.and_eq_true] at hw
-    simp only [relChain, Bool.or_eq_false_iff] at hrc
-    obtain ⟨rtl, _⟩ := (ihl hw.1.1.2 hrc.1).1 hw.1.1.1.1
-    obtain ⟨rtr, _⟩ := (ihr hw.1.2 hrc.2).1 hw.1.1.1.2
+    obtain ⟨rtl, _⟩ := (ihl hw.1.1.2).1 hw.1.1.1.1
+    obtain ⟨rtr, _⟩ := (ihr hw.1.2).1 hw.1.1.1.2
     have rt : RT (.asg o l r) := rt_of_own (own_asg rtl rtr hw.2 (fun rest => first_pr (by omega) (by omega) hw.1.1.2 hw.1.1.1.1 rest))
       (fun h => by simp [prec] at h)
     exact ex_X rt (lc_all rt (by simp)) rfl
   | dot e s ih =>
-    intro hw hrc; refine ⟨fun _ => ?_, fun h => by simp [isArgs] at h⟩
+    intro hw; refine ⟨fun _ => ?_, fun h => by simp [isArgs] at h⟩
     have hw0 := hw
     simp only [wf, Bool.and_eq_true] at hw
-    simp only [relChain] at hrc
-    obtain ⟨_, _, mce, _, _⟩ := (ih hw.2 hrc).1 hw.1
+    obtain ⟨_, _, mce, _, _⟩ := (ih hw.2).1 hw.1
     have mc : ∀ c : Bool, (c = false → cat (.dot e s) ≠ .C) → MC c (.dot e s) := fun c hc =>
       mc_dot (mce c (fun h hC => hc h (by simp [cat, hC])))
     have rt : RT (.dot e s) := rt_of_own (own_of_mc (mc true (by simp)) (np16_dot e s) rfl) (fun h rest => first_ok _ hw0 rfl h rest)
     exact ex_mk rt (lc_all rt (by simp)) mc (by simp [cat]; split <;> simp)
   | idx e i ihe ihi =>
-    intro hw hrc; refine ⟨fun _ => ?_, fun h => by simp [isArgs] at h⟩
+    intro hw; refine ⟨fun _ => ?_, fun h => by simp [isArgs] at h⟩
     have hw0 := hw
     simp only [wf, Bool.and_eq_true] at hw
-    simp only [relChain, Bool.or_eq_false_iff] at hrc
-    obtain ⟨_, _, mce, _, _⟩ := (ihe hw.1.2 hrc.1).1 hw.1.1.1
-    obtain ⟨rti, _⟩ := (ihi hw.2 hrc.2).1 hw.1.1.2
+    obtain ⟨_, _, mce, _, _⟩ := (ihe hw.1.2).1 hw.1.1.1
+    obtain ⟨rti, _⟩ := (ihi hw.2).1 hw.1.1.2
     have mc : ∀ c : Bool, (c = false → cat (.idx e i) ≠ .C) → MC c (.idx e i) := fun c hc =>
       mc_idx (mce c (fun h hC => hc h (by simp [cat, hC]))) rti
     have rt : RT (.idx e i) := rt_of_own (own_of_mc (mc true (by simp)) (np16_idx e i) rfl) (fun h rest => first_ok _ hw0 rfl h rest)
     exact ex_mk rt (lc_all rt (by simp)) mc (by simp [cat]; split <;> simp)
   | call f a ihf iha =>
-    intro hw hrc; refine ⟨fun _ => ?_, fun h => by simp [isArgs] at h⟩
+    intro hw; refine ⟨fun _ => ?_, fun h => by simp [isArgs] at h⟩
     have hw0 := hw
     simp only [wf, Bool.and_eq_true] at hw
-    simp only [relChain, Bool.or_eq_false_iff] at hrc
-    obtain ⟨_, _, mcf, _, _⟩ := (ihf hw.1.2 hrc.1).1 hw.1.1.1
-    have aa := (iha hw.2 hrc.2).2 hw.1.1.2
+    obtain ⟨_, _, mcf, _, _⟩ := (ihf hw.1.2).1 hw.1.1.1
+    have aa := (iha hw.2).2 hw.1.1.2
     have mc : ∀ c : Bool, (c = false → cat (.call f a) ≠ .C) → MC c (.call f a) := fun c hc => by
       cases c
       · exact absurd rfl (hc rfl)
@@ -1210,13 +1050,12 @@ theorem main2 : ∀ e : E, wf e = true → relChain e = false →
     have rt : RT (.call f a) := rt_of_own (own_of_mc (mc true (by simp)) (np16_call f a) rfl) (fun h rest => first_ok _ hw0 rfl h rest)
     exact ex_mk rt (lc_all rt (by simp)) mc (by simp [cat])
   | new_ f a ihf iha =>
-    intro hw hrc; refine ⟨fun _ => ?_, fun h => by simp [isArgs] at h⟩
+    intro hw; refine ⟨fun _ => ?_, fun h => by simp [isArgs] at h⟩
     have hw0 := hw
     simp only [wf, Bool.and_eq_true, Bool.or_eq_true] at hw
-    simp only [relChain, Bool.or_eq_false_iff] at hrc
-    obtain ⟨rtf, _, mcf, p17f, p18f⟩ := (ihf hw.1.2 hrc.1).1 hw.1.1.1
+    obtain ⟨rtf, _, mcf, p17f, p18f⟩ := (ihf hw.1.2).1 hw.1.1.1
     rcases hw.1.1.2 with hia | hna
-    · have aa := (iha hw.2 hrc.2).2 hia
+    · have aa := (iha hw.2).2 hia
       have hcat : cat (.new_ f a) = .M := by cases a <;> simp_all [cat, isArgs]
       have hnp : needParen 16 true (.new_ f a) = false := by simp [needParen, hcat]
       have mc : ∀ c : Bool, (c = false → cat (.new_ f a) ≠ .C) → MC c (.new_ f a) := fun c _ => mc_new p18f aa hia
@@ -1228,18 +1067,17 @@ theorem main2 : ∀ e : E, wf e = true → relChain e = false →
       have mc : ∀ c : Bool, (c = false → cat (.new_ f .noargs) ≠ .C) → MC c (.new_ f .noargs) :=
         fun _ _ => mc_paren rt (by simp [needParen, cat])
       exact ⟨rt, lc_all rt (by simp), mc, p17_newx p17f, p18_generic rt (fun h => mc false (fun _ => h))⟩
-  | anil => intro _ _; exact ⟨fun h => by simp [isExprHead] at h, fun _ => args_nil⟩
+  | anil => intro _; exact ⟨fun h => by simp [isExprHead] at h, fun _ => args_nil⟩
   | acons h tl ihh iht =>
-    intro hw hrc; refine ⟨fun h => by simp [isExprHead] at h, fun _ => ?_⟩
+    intro hw; refine ⟨fun h => by simp [isExprHead] at h, fun _ => ?_⟩
     simp only [wf, Bool.and_eq_true] at hw
-    simp only [relChain, Bool.or_eq_false_iff] at hrc
-    obtain ⟨rth, _⟩ := (ihh hw.1.2 hrc.1).1 hw.1.1.1
-    have atl := (iht hw.2 hrc.2).2 hw.1.1.2
+    obtain ⟨rth, _⟩ := (ihh hw.1.2).1 hw.1.1.1
+    have atl := (iht hw.2).2 hw.1.1.2
     cases tl with
     | anil => exact args_last rth hw.1.2 hw.1.1.1
     | acons h2 t2 => exact args_more rth hw.1.2 hw.1.1.1 atl
     | _ => simp [isArgs] at hw
-  | noargs => intro _ _; exact ⟨fun h => by simp [isExprHead] at h, fun h => by simp [isArgs] at h⟩
+  | noargs => intro _; exact ⟨fun h => by simp [isExprHead] at h, fun h => by simp [isArgs] at h⟩
 
 /-! ### the NoIn family (allowIn as a parameter) for the levels that read it -/
 
@@ -1252,14 +1090,14 @@ def parseAtA (ai : Bool) : Nat → Nat → List Tok → R
 
 /-- with allowIn = false the relational level does not react to `in` -/
 def firesA (ai : Bool) (j : Nat) (t : Tk) (nl : Bool) : Bool :=
-  if j = 9 ∧ ai = false ∧ t = .p .kIn then false else fires j t nl
+  if j = 9 then (relOps ai t).isSome else fires j t nl
 
 def stopA (ai : Bool) (lvl : Nat) (ts : List Tok) : Prop := ∀ j, lvl ≤ j → j ≤ 9 → firesA ai j (hd ts) (hdNl ts) = false
 
 theorem parseAtA_loop (ai : Bool) (k : Nat) (hk : isLoopLevel k = true) (hk9 : k ≤ 8) (n : Nat) (ts : List Tok) :
     parseAtA ai k (n+1) ts = (parseAtA ai (k+1) n ts).bind fun p => binLoop (opsAt k) (parseAtA ai (k+1) n) n p.1 p.2 := by
   simp [isLoopLevel] at hk
-  rcases hk with (((((((((h|h)|h)|h)|h)|h)|h)|h)|h)|h) <;> subst h <;> (try omega) <;> simp only [parseAtA, opsAt] <;>
+  rcases hk with ((((((((((h|h)|h)|h)|h)|h)|h)|h)|h)|h)|h) <;> subst h <;> (try omega) <;> simp only [parseAtA, opsAt] <;>
     first
       | rw [parseExpression] | rw [parseLor] | rw [parseLand] | rw [parseBor] | rw [parseBxor] | rw [parseBand]
       | rw [parseEq]
@@ -1288,15 +1126,11 @@ theorem descendA1 (ai : Bool) (j : Nat) (hj : j ≤ 9) {ts : List Tok} {e : E} {
   | 9, _ =>
     simp only [parseAtA] at h' ⊢
     have h'' : parseShift (m+1) ts = some (e, rest) := h'
+    have hn : relOps ai (hd rest) = none := by
+      simp only [firesA, if_true] at hs
+      cases h : relOps ai (hd rest) <;> simp_all
     rw [parseRel, h'']
-    simp only [Option.bind_some]
-    cases ai
-    · by_cases hin : hd rest = .p .kIn
-      · simp [hin]
-      · simp only [firesA, hin, and_false, if_false, fires] at hs
-        split <;> simp_all [isRelTk]
-    · simp only [firesA, fires] at hs
-      split <;> simp_all [isRelTk]
+    simp [binLoop, hn]
   | 0, _ | 3, _ | 4, _ | 5, _ | 6, _ | 7, _ | 8, _ =>
     rw [parseAtA_loop ai _ rfl (by omega), h']
     rw [hne9 (by omega)] at hs
